@@ -91,7 +91,8 @@ def off_duty(ctx, P, views, iters):
         cls, fn = view.method("take_servers_off_duty")
         for lit, name in (("False", "non-preemptive"), ("'resume'", "preemptive")):
             w = Walker(P, view, keep=lambda e: e.kind == "guard" or (e.kind == "call" and e.d["meth"] in ("kill_server", "interrupt_service", "append", "insert")) or
-                       (e.kind == "assign" and e.d["target"].endswith(".offduty")) or e.kind in ("iter", "loopexit"),
+                       (e.kind == "assign" and e.d["target"].endswith(".offduty")) or e.kind in ("iter", "loopexit") or
+                       (e.kind in ("assign", "return") and isinstance(e.d.get("value_node"), ast.ListComp)),
                        track=lambda t, f: True, inline=rules.new_helper, literal_args={"preemption": lit}, loop_iters=iters)
             for st in w.paths_of(cls, fn):
                 if st.status == "raise":
@@ -103,6 +104,19 @@ def off_duty(ctx, P, views, iters):
                 if name == "non-preemptive":
                     # every server of the old shift is either (tested busy and marked offduty) or (tested idle and put on the delete list, which is then killed)
                     dellists = set()
+                    # the delete list written as a filter: [s for s in self.servers if not s.busy] -- every idle server, no busy one
+                    idle_filter = False
+                    for e in evs:
+                        vn = e.d.get("value_node") if e.kind in ("assign", "return") else None
+                        if isinstance(vn, ast.ListComp) and len(vn.generators) == 1 and unparse(vn.generators[0].iter) == "self.servers" and isinstance(vn.generators[0].target, ast.Name):
+                            v_ = vn.generators[0].target.id
+                            tests = [guards.norm(t, unparse) for t in vn.generators[0].ifs]
+                            if unparse(vn.elt) == v_ and tests == [("not", ("truth", v_ + ".busy"))]:
+                                idle_filter = True
+                                if e.kind == "assign":
+                                    dellists.add(e.d["target"])
+                            elif unparse(vn.elt) == v_:
+                                reason, msg = "busy-server-killed", "non-pre-emptive schedule: the list of servers to delete must hold exactly the idle ones (`not srvr.busy`)"
                     for i, e in calls:
                         if e.d["meth"] in ("append", "insert") and "." not in e.d["recv"]:
                             x = e.d["args"][-1] if e.d["args"] else "?"
@@ -128,11 +142,16 @@ def off_duty(ctx, P, views, iters):
                         listed = any(x.kind == "call" and x.d["meth"] in ("append", "insert") for x in seg)
                         if bf and not marked:
                             reason, msg = "busy-server-not-marked", "a busy server must finish its customer as overtime: it is marked offduty, not dropped"
-                        if not bf and not listed:
+                        if not bf and not listed and not idle_filter:
                             reason, msg = "idle-server-kept", "an idle server of the old shift must be deleted"
                     if any(e.d["meth"] == "interrupt_service" for i, e in calls):
                         reason, msg = "interrupt-without-preemption", "non-pre-emptive schedule: services in progress must not be interrupted"
-                    if dellists and not any(isinstance(e.node, ast.For) and e.d.get("iter") in dellists for e in evs if e.kind in ("iter", "loopexit")):
+                    kills = [e for e in evs if e.kind in ("iter", "loopexit") and isinstance(e.node, ast.For) and any(isinstance(y, ast.Call) and call_name(y) == "kill_server" for y in ast.walk(e.node))]
+                    if any((e.d.get("iter") or "").replace(" ", "") in ("self.servers", "self.servers[::1]", "list(self.servers)") for e in kills):
+                        reason, msg = "busy-server-killed", "non-pre-emptive schedule: the kill loop runs over every server, busy ones included"
+                    if idle_filter and not dellists and kills:
+                        pass        # the filtered list is returned by a helper and iterated by the kill loop
+                    elif dellists and not any(isinstance(e.node, ast.For) and e.d.get("iter") in dellists for e in evs if e.kind in ("iter", "loopexit")):
                         reason, msg = "idle-server-kept", "the servers put on the delete list must be killed"
                 else:
                     it_idx = [i for i, e in enumerate(evs) if e.kind == "iter" and isinstance(e.node, ast.For) and e.d.get("iter") == "self.servers"]
